@@ -230,15 +230,17 @@ def bestMixedDomainSize (P : Params F) (minSize : Nat) : Outcome Nat :=
         let (r, ta) := growAux minSize 65 (q ^ b) 0
         if ta ≤ P.twoAdicity then min best r else best) usizeMax)
 
-/-- `MixedRadixEvaluationDomain::new` (note: `best_mixed_domain_size` — and its `unwrap`s — run
-    before the `F::SMALL_SUBGROUP_BASE?` early return) -/
+/-- `MixedRadixEvaluationDomain::new` (after `fix:` 45fd997: the `F::SMALL_SUBGROUP_BASE?` early
+    return precedes `best_mixed_domain_size`, so a field without a small subgroup yields `None`;
+    before the fix the `unwrap`s of `best_mixed_domain_size` ran first and `new` panicked).
+    `.panic` remains only for the inconsistent configuration base = `Some`, adicity = `None`. -/
 def mixedNew (P : Params F) (numCoeffs : Nat) : Outcome (Option (Domain F)) :=
-  match bestMixedDomainSize P numCoeffs with
-  | .panic => .panic
-  | .ok size =>
-    match P.smallBase with
-    | none => .ok none
-    | some q =>
+  match P.smallBase with
+  | none => .ok none
+  | some q =>
+    match bestMixedDomainSize P numCoeffs with
+    | .panic => .panic
+    | .ok size =>
       let qAd := kAdicity q size
       match checkedPow q qAd with
       | none => .ok none
@@ -789,7 +791,14 @@ def divideWithQAndR (self divisor : Sparse F) : Outcome (List F × List F) :=
 /-- `size_as_field_element()` (trait default: `F::from(self.size() as u64)`) -/
 def sizeAsFieldElement (d : Domain F) : F := (d.size : F)
 
-/-- `filter_polynomial(subdomain)`; `.panic` = `assert!(remainder.is_zero())` (and inner asserts) -/
+/-- `filter_polynomial(subdomain)`; `.panic` = `assert!(remainder.is_zero())` (and inner asserts).
+
+    Documentation (not part of property C07; the driver reports it as `note:filter-coset-scaling`):
+    the code scales `Z_self / Z_sub` by `m·h^m / N` (`h` = subdomain offset, `m`, `N` the sizes)
+    where the normalisation that makes the quotient 1 on the subdomain is `m / (N·h^(N−m))`.
+    The two agree iff `h^N = 1`, i.e. iff `self.offset^N = 1` (for a contained subdomain
+    `h^N = self.offset^N`).  Witness over `Fp 5`: `self = sub = ⟨size 1, offset 2⟩` gives
+    `filterPolynomial self sub = .ok [2]` while the filter polynomial is `[1]`. -/
 def filterPolynomial (self sub : Domain F) : Outcome (List F) :=
   match vanishingPolynomial self, vanishingPolynomial sub with
   | .ok vs, .ok vsub =>
@@ -800,7 +809,13 @@ def filterPolynomial (self sub : Domain F) : Outcome (List F) :=
     | .ok (q, r) => if denseIsZero r then .ok q else .panic
   | _, _ => .panic
 
-/-- `evaluate_filter_polynomial(subdomain, tau)` -/
+/-- `evaluate_filter_polynomial(subdomain, tau)`.
+
+    Documentation (not part of property C07; `note:filter-coset-scaling` in the driver): the code
+    returns `m·Z_self(τ) / (N·Z_sub(τ))` without any power of the subdomain offset `h`; it equals the
+    filter polynomial `Σ_{x ∈ sub} L_x(τ)` on the points of `self` (both 0/1 there) but differs by the
+    factor `h^(N−m)` elsewhere, and differs from `filterPolynomial` by `h^m`.  Witness over `Fp 5`:
+    `self = ⟨size 2, offset 1⟩`, `sub = ⟨size 1, offset 4⟩`, `τ = 0` gives 2, the filter value is 3. -/
 def evaluateFilterPolynomial (self sub : Domain F) (tau : F) : F :=
   let vSub := evaluateVanishingPolynomial sub tau
   if vSub = 0 then 1
